@@ -432,8 +432,9 @@ func (i *Interpreter) executeFor(stmt ForStatement, env *Environment) (interface
 			}
 		}
 	} else if obj, ok := iterable.(map[string]interface{}); ok {
-		// Iterate over object/map
-		for key, value := range obj {
+		// Iterate over object/map, in ascending key order (see sortedKeys)
+		for _, key := range sortedKeys(obj) {
+			value := obj[key]
 			// Create a fresh environment for each iteration
 			loopEnv := NewChildEnvironment(env)
 
